@@ -32,7 +32,7 @@ def required_cells(tier):
     return {"variant:differential": 6, "variant:linear": 4,
             "variant:nofield": 3, "variant:frozen": 3, "nsys:1": 3, "nsys:2": 3, "nsys:3": 1,
             "start!=0": 4, "record_all:False": 2, "heun_steps_checked": 50,
-            "td": 4}
+            "td": 4, "subdiv:None": 8, "second-solver-on-same-system": 8}
 
 
 def cases(tier, seed):
@@ -153,7 +153,11 @@ def run_case(case):
         scales.append(scale)
         corrs.append(gen.make_power_law(p))
     rhos = [gen.rand_state(rng, d, ["mixed", "pure"][i % 2]) for d in dims]
-    params = lib.tempo_params(dt, epsrel, kmax, tau)
+    # subdiv_limit=None is a documented mode of its own (the Liouvillian is
+    # sampled at two points per step instead of integrated): both methods
+    # must honour it
+    subdiv = None if (i // 3) % 4 == 1 else 256
+    params = lib.tempo_params(dt, epsrel, kmax, tau, subdiv)
     end = lib.end_time(start, dt, nsteps)
     bound = C_BOUND * epsrel * max(scales) * lib.pt_growth(nsteps)
     texp = start + dt * np.arange(nsteps + 1)
@@ -170,6 +174,16 @@ def run_case(case):
     mfs_a = oqupy.MeanFieldSystem(mfs_a2.system_list, field_eom=log_a)
     baths = [oqupy.Bath(o, c) for o, c in zip(opers, corrs)]
     tempo = oqupy.MeanFieldTempo(mfs_a, baths, params, rhos, a0, start)
+    decoy = bool((i // 5) % 3 == 2)
+    if decoy:
+        # a second solver on the SAME mean-field system with another time
+        # grid is set up (not run) before the first one computes
+        oqupy.MeanFieldTempo(
+            mfs_a, baths, lib.tempo_params(dt * 0.5, epsrel, kmax, tau,
+                                           subdiv), rhos, a0, start + 0.37)
+        cells.append("second-solver-on-same-system")
+    if subdiv is None:
+        cells.append("subdiv:None")
     log_a.events.clear()
     dyn_a = tempo.compute(end, progress_type="silent")
     fa = np.array(dyn_a.fields)
@@ -237,7 +251,8 @@ def run_case(case):
         log_b.events.clear()
         dyn_b = oqupy.compute_dynamics_with_field(
             mfs_b, a0, process_tensor_list=pts, initial_state_list=rhos,
-            start_time=start, record_all=record_all, progress_type="silent")
+            start_time=start, record_all=record_all, subdiv_limit=subdiv,
+            progress_type="silent")
         fb = np.array(dyn_b.fields)
         tb = np.array(dyn_b.times)
         if record_all:
